@@ -231,25 +231,28 @@ impl Shared {
             // No futures to wake up.
             return;
         }
-        let mut wakers = take(&mut *blocked_futures);
+        // NOTE: waking a future runs user code, which might panic. `Unwoken`
+        // ensures that in that case the wakers we didn't get to are not lost,
+        // but are added back to the blocked futures.
+        let mut wakers = Unwoken {
+            wakers: take(&mut *blocked_futures),
+            woken: 0,
+            blocked_futures: &self.blocked_futures,
+        };
         unlock(blocked_futures); // Unblock others.
-        let awoken = min(available, wakers.len());
-        for waker in wakers.drain(..awoken) {
-            log::trace!(waker:?; "waking up future for submission");
-            waker.wake();
-        }
+        let awoken = min(available, wakers.wakers.len());
+        wakers.wake(awoken);
 
         // Reuse allocation.
         let mut blocked_futures = lock(&self.blocked_futures);
-        swap(&mut *blocked_futures, &mut wakers);
+        swap(&mut *blocked_futures, &mut wakers.wakers);
         // Add back any wakers for which we don't have a slot.
-        let awoken = min(available - awoken, wakers.len());
-        blocked_futures.extend(wakers.drain(wakers.len() - awoken..));
+        let awoken = min(available - awoken, wakers.wakers.len());
+        let start = wakers.wakers.len() - awoken;
+        blocked_futures.extend(wakers.wakers.drain(start..));
         unlock(blocked_futures); // Unblock others.
-        for waker in wakers {
-            log::trace!(waker:?; "waking up future for submission");
-            waker.wake();
-        }
+        let awoken = wakers.wakers.len();
+        wakers.wake(awoken);
     }
 
     /// Returns the number of unsumitted submission queue entries.
@@ -272,6 +275,42 @@ impl Shared {
 unsafe impl Send for Shared {}
 
 unsafe impl Sync for Shared {}
+
+/// Wakers taken from [`Shared::blocked_futures`] that are in the process of
+/// being woken, see [`Shared::wake_blocked_futures`].
+struct Unwoken<'a> {
+    wakers: Vec<task::Waker>,
+    /// Number of `wakers`, from the start, that have been woken.
+    woken: usize,
+    blocked_futures: &'a Mutex<Vec<task::Waker>>,
+}
+
+impl Unwoken<'_> {
+    /// Wake the first `n` wakers, in order, and remove them.
+    fn wake(&mut self, n: usize) {
+        while self.woken < n {
+            let waker = &self.wakers[self.woken];
+            // NOTE: if the call below panics we consider the waker woken.
+            self.woken += 1;
+            log::trace!(waker:?; "waking up future for submission");
+            waker.wake_by_ref();
+        }
+        drop(self.wakers.drain(..n));
+        self.woken = 0;
+    }
+}
+
+impl Drop for Unwoken<'_> {
+    fn drop(&mut self) {
+        if self.woken != 0 {
+            // Only reachable if waking a future panicked. Add back the
+            // futures we didn't wake so they are not lost, they will be woken
+            // the next time.
+            let mut blocked_futures = lock(self.blocked_futures);
+            blocked_futures.extend(self.wakers.drain(self.woken..));
+        }
+    }
+}
 
 impl Drop for Shared {
     fn drop(&mut self) {
